@@ -1090,7 +1090,21 @@ def c08_end(W, mon):
             why = None
         except (ValueError, AssertionError, KeyError) as e:
             accepted = False
-            why = f"{type(e).__name__}: {e} / {e.__cause__!r}"[:300]
+            import traceback
+
+            fr = traceback.extract_tb(e.__traceback__)[-1]
+            why = f"{type(e).__name__}: {e} / {e.__cause__!r} at {fr.filename.split('/')[-1]}:{fr.lineno} `{fr.line}`"[:400]
+            if "dropped_taskgraphs == canceled_task_graphs_count" in (fr.line or ""):
+                # diagnose: the reader counts a graph as cancelled when it has any TASK_CANCEL row and no
+                # TASK_GRAPH_FINISHED row; the simulator's census counts graphs with a cancelled sink
+                g_cancel_row = {r[5] for r in by.get("TASK_CANCEL", []) if len(r) > 5}
+                g_finished = {r[2] for r in by.get("TASK_GRAPH_FINISHED", []) if len(r) > 2}
+                reader_count = len(g_cancel_row - g_finished)
+                sink_cancelled = {g for g, tg in W.task_graphs.items() if any(t.state == TaskState.CANCELLED for t in tg.get_nodes() if not tg.get_children(t))}
+                only_reader = (g_cancel_row - g_finished) - sink_cancelled
+                unfinished_with_live_sinks = {g for g in only_reader if not all(t.state in (TaskState.COMPLETED, TaskState.CANCELLED) for t in W.task_graphs[g].get_nodes())}
+                if only_reader and only_reader == unfinished_with_live_sinks and not (sink_cancelled - (g_cancel_row - g_finished)) and len(end) == 1 and str(end[0][6]) == str(len(sink_cancelled)):
+                    why += f" [unfinished-graph-with-cancelled-branch: {sorted(only_reader)}]"
         mon.req("C08", "reader-accepts-trace", accepted, why)
         if accepted:
             simr = rd._simulators["trace"]
